@@ -599,7 +599,25 @@ pub fn modules_full(ctx: &mut Ctx, g: &Guarded, bi: &BootInformation) {
 }
 
 /// Prints the `get` line of a typed getter; the tag if there is one.
-fn got<'a, T: ?Sized>(ctx: &mut Ctx, g: &Guarded, name: &str, r: Result<Option<&'a T>, ()>) -> Option<&'a T> {
+/// the trait-provided views of a typed tag: `as_bytes()`, `payload()`, `header()`, `as_ptr()`
+pub fn dyn_views<T: MaybeDynSized + ?Sized>(g: &Guarded, t: &T) -> String {
+    let r = guard(|| {
+        let b = MaybeDynSized::as_bytes(t);
+        let p = MaybeDynSized::payload(t);
+        format!(
+            "bytes=@{}+{} payload=@{}+{} header=@{} ptr=@{}",
+            g.off(b.as_ptr()),
+            b.len(),
+            g.off(p.as_ptr()),
+            p.len(),
+            g.off(MaybeDynSized::header(t) as *const T::Header),
+            g.off(MaybeDynSized::as_ptr(t))
+        )
+    });
+    r.unwrap_or("views=PANIC".to_string())
+}
+
+fn got<'a, T: MaybeDynSized + ?Sized>(ctx: &mut Ctx, g: &Guarded, name: &str, r: Result<Option<&'a T>, ()>) -> Option<&'a T> {
     match r {
         Err(()) => {
             ctx.ln("get", format!("{} PANIC", name));
@@ -610,7 +628,7 @@ fn got<'a, T: ?Sized>(ctx: &mut Ctx, g: &Guarded, name: &str, r: Result<Option<&
             None
         }
         Ok(Some(t)) => {
-            ctx.ln("get", format!("{} some {}", name, view(g, t)));
+            ctx.ln("get", format!("{} some {} {}", name, view(g, t), dyn_views(g, t)));
             Some(t)
         }
     }
@@ -682,7 +700,7 @@ pub fn getters(ctx: &mut Ctx, g: &Guarded, bi: &BootInformation) {
         Err(()) => ctx.ln("get", "framebuffer PANIC"),
         Ok(None) => ctx.ln("get", "framebuffer none"),
         Ok(Some(Ok(t))) => {
-            ctx.ln("get", format!("framebuffer some {}", view(g, t)));
+            ctx.ln("get", format!("framebuffer some {} {}", view(g, t), dyn_views(g, t)));
             k_framebuffer(ctx, g, t);
             dbg_line(ctx, "framebuffer", t);
         }
